@@ -7,8 +7,10 @@ import (
 	"fmt"
 	"math"
 	"math/bits"
+	"sort"
 	"strconv"
 	"strings"
+	"sync"
 
 	"github.com/openacid/low/bmtree"
 )
@@ -83,6 +85,91 @@ func init() {
 		l := int32(len(s))
 		return L(U(w), U(bmtree.NewPath(v<<uint(h-l), l, h)))
 	}
+	Exec["bmtree.PathStr/seq"] = func(a []V) string {
+		xs := make([]string, len(a[0].L))
+		for i, hq := range a[0].L {
+			xs[i] = Str(bmtree.PathStr(c10Word(hq.L[0].I32(), hq.L[1])))
+		}
+		return L(xs...)
+	}
+	Exec["bmtree.PathStr/bulk"] = func(a []V) string {
+		k, stride := a[1].Int(), a[2].U64()
+		first := make([]uint64, 0, k)
+		dg, i := uint64(0), uint64(1)
+		for si, sg := range a[0].L {
+			h, l := sg.L[0].I32(), sg.L[1].I32()
+			start, count := sg.L[2].U64(), sg.L[3].U64()
+			for x := start; x < start+count; x++ {
+				w := bmtree.NewPath(x<<uint(h-l), l, h)
+				if si == 0 && len(first) < k {
+					first = append(first, w)
+				}
+				s := bmtree.PathStr(w) // every prefix is rendered; every stride-th text is observed
+				if (x-start)%stride == 0 {
+					dg += c10Digest(s) * i
+					i++
+				}
+			}
+		}
+		again := make([]string, len(first))
+		for j, w := range first {
+			again[j] = Str(bmtree.PathStr(w))
+		}
+		return L(U(dg), L(again...))
+	}
+	Exec["bmtree.PathStr/concurrent"] = func(a []V) string {
+		ws := make([]uint64, len(a[0].L))
+		for i, hq := range a[0].L {
+			ws[i] = c10Word(hq.L[0].I32(), hq.L[1])
+		}
+		g, iters := a[1].Int(), a[2].Int()
+		seen := make([][]map[string]bool, g) // per goroutine, per path: the distinct texts returned
+		var wg sync.WaitGroup
+		start := make(chan struct{})
+		for t := 0; t < g; t++ {
+			seen[t] = make([]map[string]bool, len(ws))
+			for i := range ws {
+				seen[t][i] = map[string]bool{}
+			}
+			wg.Add(1)
+			go func(t int) {
+				defer wg.Done()
+				<-start
+				last := make([]string, len(ws))
+				for it := 0; it < iters; it++ {
+					for j := range ws {
+						i := (j + t) % len(ws)
+						s := bmtree.PathStr(ws[i])
+						if it == 0 || s != last[i] {
+							seen[t][i][s] = true
+							last[i] = s
+						}
+					}
+				}
+			}(t)
+		}
+		close(start)
+		wg.Wait()
+		out := make([]string, len(ws))
+		for i := range ws {
+			set := map[string]bool{}
+			for t := 0; t < g; t++ {
+				for s := range seen[t][i] {
+					set[s] = true
+				}
+			}
+			xs := make([]string, 0, len(set))
+			for s := range set {
+				xs = append(xs, s)
+			}
+			sort.Strings(xs)
+			for j := range xs {
+				xs[j] = Str(xs[j])
+			}
+			out[i] = L(xs...)
+		}
+		return L(out...)
+	}
 	Exec["bmtree.NewPath/family"] = func(a []V) string {
 		h := a[0].I32()
 		v, l := c10VL(a[1])
@@ -98,6 +185,16 @@ func init() {
 		}
 		return L(U(c10WordVL(h, v, l)), c0, c1, nx, U(c10WordVL(h, rv, rl)))
 	}
+}
+
+// c10Digest: (ParseUint base 2 + 1) * (len + 1) of one rendered text, wrapping in uint64
+// (Spec/PathWideSpec.v digest_acc; any byte c counts as the digit c-'0').
+func c10Digest(s string) uint64 {
+	v := uint64(0)
+	for i := 0; i < len(s); i++ {
+		v = 2*v + (uint64(s[i]) - 48)
+	}
+	return (v + 1) * (uint64(len(s)) + 1)
 }
 
 // c10MaskKind classifies the low half of a word: empty / block (left-aligned run
@@ -457,6 +554,111 @@ func genC10Wide(g *Gen) {
 			rv = g.R.U64() & (1<<uint(rl) - 1)
 		}
 		fam(h, v, l, rv, rl, "fam-rand-"+c10HB(h))
+	}
+	// ---------------------------------------------------------------- sessions (hidden state inside PathStr)
+	hq := func(h int, v uint64, l int) string { return L(Int(h), c10Node(v, l)) }
+	seq := func(items []string, key, bucket string) {
+		g.Stat(bucket)
+		g.Do("bmtree.PathStr/seq", L(L(items...)), key)
+	}
+	// (a) consecutive calls for nodes of DIFFERENT heights with the same length and the same upper half
+	// (same PathBits, same PathLen): every such pair of heights 1..10, in the order A B A
+	for h2 := 2; h2 <= 10; h2++ {
+		for h1 := 1; h1 < h2; h1++ {
+			d := h2 - h1
+			for l := d + 1; l <= h1; l++ {
+				var items []string
+				for p2 := uint64(1); p2<<uint(d) < 1<<uint(l); p2++ {
+					a, b := hq(h1, p2<<uint(d), l), hq(h2, p2, l)
+					items = append(items, a, b, a)
+				}
+				seq(items, fmt.Sprintf("seq/eqbits/h%d/h%d/l%d", h1, h2, l), "seq-eqbits-exh")
+			}
+		}
+	}
+	g.Exhaust = append(g.Exhaust, "PathStr/seq: heights 1..10, every pair of nodes of different heights with equal PathBits and PathLen (non-zero prefix), order A B A")
+	n = g.N(300, 6000)
+	for k := 0; k < n; k++ {
+		h2 := g.R.Range(2, 32)
+		h1 := g.R.Range(1, h2-1)
+		d := h2 - h1
+		if d+1 > h1 {
+			h1 = (h2 + 2) / 2
+			d = h2 - h1
+			if d+1 > h1 {
+				continue
+			}
+		}
+		l := g.R.Range(d+1, h1)
+		p2 := g.R.U64()&(1<<uint(l-d)-1) | 1
+		a, b := hq(h1, p2<<uint(d), l), hq(h2, p2, l)
+		items := []string{a, b, a}
+		if g.R.Bool() { // a third height in between / the same node twice
+			items = append(items, b, b, a)
+		}
+		seq(items, "seq/eqbits/"+c10HB(h1)+"/"+c10HB(h2), "seq-eqbits-rand")
+	}
+	// (b) mixed sessions: a few nodes of mixed heights with repeats (A B A C B A ...)
+	n = g.N(300, 6000)
+	for k := 0; k < n; k++ {
+		m := g.R.Range(2, 4)
+		pool := make([]string, m)
+		for i := range pool {
+			h := g.R.Range(1, 32)
+			l := g.R.Range(1, h)
+			pool[i] = hq(h, g.R.U64()&(1<<uint(l)-1), l)
+		}
+		cnt := g.R.Range(4, 12)
+		items := make([]string, cnt)
+		for i := range items {
+			items[i] = pool[g.R.Intn(m)]
+		}
+		seq(items, fmt.Sprintf("seq/mixed/%d", m), "seq-mixed")
+	}
+
+	// (c) concurrent renders of two or three paths
+	conc := func(items []string, gor, iters int, key string) {
+		g.Stat("concurrent")
+		g.Do("bmtree.PathStr/concurrent", L(L(items...), Int(gor), Int(iters)), key)
+	}
+	n = g.N(16, 64)
+	for k := 0; k < n; k++ {
+		m := 2 + k%2
+		items := make([]string, m)
+		h := g.R.Range(2, 32)
+		for i := range items {
+			hh := h
+			if k%4 >= 2 { // different heights
+				hh = g.R.Range(2, 32)
+			}
+			l := g.R.Range(1, hh)
+			items[i] = hq(hh, (g.R.U64()&(1<<uint(l)-1))^uint64(i), l)
+		}
+		conc(items, []int{4, 6, 8}[k%3], 10000, fmt.Sprintf("conc/%d/g%d", m, []int{4, 6, 8}[k%3]))
+	}
+
+	// (d) bulk: more than 65536 DISTINCT paths in this process (heights 17..20), then the first ones again
+	bulk := func(segs [][4]int, k, stride int, key string) {
+		g.Stat("bulk")
+		xs := make([]string, len(segs))
+		for i, sg := range segs {
+			xs[i] = L(Int(sg[0]), Int(sg[1]), Int(sg[2]), Int(sg[3]))
+		}
+		g.Do("bmtree.PathStr/bulk", L(L(xs...), Int(k), Int(stride)), key)
+	}
+	bulk([][4]int{{17, 17, 0, 16700}, {18, 18, 3, 16700}, {19, 19, 1 << 18, 16700}, {20, 20, 1<<20 - 16700, 16700}}, 16, 61, "bulk/66800")
+	bulk([][4]int{{9, 9, 0, 512}, {10, 7, 100, 28}}, 8, 1, "bulk/540")
+	if g.Thorough {
+		bulk([][4]int{{17, 16, 0, 65536}, {20, 12, 0, 4096}, {18, 18, 100000, 70000}}, 32, 7, "bulk/139632")
+	}
+	// ... and the paths this process rendered FIRST (the start of genC10's exhaustive section) once more
+	for h := 1; h <= 3; h++ {
+		for l := 1; l <= h; l++ {
+			for v := uint64(0); v < 1<<uint(l); v++ {
+				g.Stat("after-bulk")
+				g.Do("bmtree.NewPath/fields", L(Int(h), c10Node(v, l)), "")
+			}
+		}
 	}
 }
 
